@@ -33,8 +33,10 @@ pub enum PeerOp {
     AckAdv { adv: u16, wnd: u32, sack: Option<Vec<u8>> },
     /// repeat the last pure ACK unchanged n times (1 ms apart)
     DupAck(u8),
-    /// ST_FIN with seq = next_seq + dseq
+    /// ST_FIN with seq = next_seq + dseq (ack_nr = the peer's last cumulative ack)
     Fin { dseq: i16 },
+    /// like Fin, but ack_nr = highest seq seen from the socket (covers the socket's FIN if sent)
+    FinAck { dseq: i16 },
     /// ST_RESET; ack_nr = the socket's FIN seq if seen (and ack_fin), else highest seen
     Reset { ack_fin: bool },
     /// duplicate of the peer's SYN (incoming connections)
@@ -113,6 +115,12 @@ pub struct SpResult {
     pub eof: bool,
     pub read_err: Option<String>,
     pub write_err: Option<String>,
+    /// end-of-connection-task events reported by the crate's cfg-guarded observer hook
+    pub conn_events: Vec<super::ConnEvent>,
+    /// instant at which the script first issued an R(Read…) step
+    pub read_issued_at_us: Option<u64>,
+    /// instant at which the script issued W(Shutdown) (the call may still be pending at the end)
+    pub shutdown_called_at_us: Option<u64>,
     /// Data ops skipped by the disciplined peer
     pub skipped_data_ops: u32,
     /// log indices of peer data packets in the order sent: (log idx, seq)
@@ -359,6 +367,7 @@ pub fn run(case: &SpCase, trace: bool) -> SpResult {
         res.steps_from_idx = net.log_len();
 
         // ---- steps
+        let mut writer_dropped = false;
         for step in &case.steps {
             peer.observe();
             try_take_stream(&mut w_tx, &mut r_tx, &mut res);
@@ -371,6 +380,12 @@ pub fn run(case: &SpCase, trace: bool) -> SpResult {
                     continue;
                 }
                 Step::W(op) => {
+                    if matches!(op, WOp::Drop) {
+                        writer_dropped = true;
+                    }
+                    if matches!(op, WOp::Shutdown) && w_tx.is_some() && !writer_dropped {
+                        res.shutdown_called_at_us.get_or_insert(net.now_us());
+                    }
                     if let Some(tx) = &w_tx {
                         if matches!(op, WOp::Drop) {
                             // takes effect at once, even when an earlier operation is still pending
@@ -383,6 +398,9 @@ pub fn run(case: &SpCase, trace: bool) -> SpResult {
                 }
                 Step::R(op) => {
                     if let Some(tx) = &r_tx {
+                        if matches!(op, ROp::Read { .. } | ROp::ReadToEnd { .. }) {
+                            res.read_issued_at_us.get_or_insert(net.now_us());
+                        }
                         let _ = tx.send(op.clone());
                         if matches!(op, ROp::Drop) {
                             r_abort.notify_one();
@@ -460,7 +478,7 @@ pub fn run(case: &SpCase, trace: bool) -> SpResult {
                             }
                         }
                     }
-                    PeerOp::Fin { dseq } => {
+                    PeerOp::Fin { dseq } | PeerOp::FinAck { dseq } => {
                         if case.discipline && (peer.fin_seq.is_some() || *dseq != 0 || peer.lens.keys().any(|s| dist(*s, peer.next_seq) >= 0)) {
                             res.skipped_data_ops += 1;
                             settle().await;
@@ -476,6 +494,10 @@ pub fn run(case: &SpCase, trace: bool) -> SpResult {
                         peer.fin_seqs.insert(seq);
                         let mut p = peer.base(refparse::ST_FIN);
                         p.seq = seq;
+                        if matches!(op, PeerOp::FinAck { .. }) {
+                            p.ack = peer.ack_base(expected_sock_first);
+                            peer.last_ack = p.ack;
+                        }
                         if *dseq == 0 {
                             peer.next_seq = peer.next_seq.wrapping_add(1);
                             peer.fin_seq.get_or_insert(seq);
@@ -544,6 +566,7 @@ pub fn run(case: &SpCase, trace: bool) -> SpResult {
         res.peer_fin_seq = peer.fin_seq;
         res.preds = net.predicates();
         res.wedge = take_wedge();
+        res.conn_events = super::take_conn_events();
         // keep the command channels alive until here so that the app tasks do not end early
         drop((w_tx, r_tx));
         res
